@@ -560,7 +560,10 @@ fn load_sheet_rels<R: Read + std::io::Seek>(
     let v: Vec<&str> = path.split("/worksheets/").collect();
     let mut path = v[0].to_string();
     path.push_str("/worksheets/_rels/");
-    path.push_str(v[1]);
+    path.push_str(
+        v.get(1)
+            .ok_or_else(|| XlsxError::Xml(format!("Unexpected worksheet path: {path}")))?,
+    );
     path.push_str(".rels");
     let file = archive.by_name(&path);
     if file.is_err() {
